@@ -5,8 +5,8 @@ SPEC = {
     "rule": "forms: 33 restraint definitions (harmonic on scalar / periodic / 3-vector / unit-vector / quaternion / two "
             "variables, one- and two-sided and periodic walls incl. different wall constants, linear, histogramRestraint) x 30 "
             "geometries, energy vs documented closed form; ABMD: all value words of length 5 (thorough 7) over 4 values x "
-            "increasing/decreasing x 2 stopping values; schedules: 10 moving-restraint schedules (centres/force constant; continuous, staged, lambdaSchedule, "
-            "lambdaExponent, targetEquilSteps, decoupling; harmonic and harmonicWalls) x 2 scripted trajectories x EVERY "
+            "increasing/decreasing x 2 stopping values; schedules: 16 moving-restraint schedules (centres/force constant; continuous, staged, lambdaSchedule, "
+            "lambdaExponent, targetEquilSteps, decoupling; harmonic and harmonicWalls with equal, different and single wall constants) x 2 scripted trajectories x EVERY "
             "assignment of {no boundary, new run in the same process, restart from the saved state} to the boundaries "
             "between 8 (thorough 10) steps x text/binary state; every step of every segmented run is compared with the "
             "unsegmented run and the unsegmented run with closed forms; states = distinct (segmentation, history of "
